@@ -34,8 +34,28 @@ trait Spec {
     }
 }
 
+thread_local! {
+    /// whether `start!` hands out `Builder::default()` instead of `Builder::new()`
+    static VIA_DEFAULT: std::cell::Cell<bool> = const { std::cell::Cell::new(false) };
+}
+
+/// A fresh builder: `new()`, or (second pass of `check`) the `Default` value, which is a builder in
+/// the same initial state — every call sequence has the same documented effect from either.
+macro_rules! start {
+    ($b:ty) => {
+        if VIA_DEFAULT.with(|c| c.get()) { <$b>::default() } else { <$b>::new() }
+    };
+}
+
 fn check<S: Spec>(ops: &[S::Op]) -> CaseResult {
+    check_from::<S>(ops, false)?;
+    check_from::<S>(ops, true).map_err(|e| format!("[builder obtained through Default] {}", e))
+}
+
+fn check_from<S: Spec>(ops: &[S::Op], via_default: bool) -> CaseResult {
+    VIA_DEFAULT.with(|c| c.set(via_default));
     let real = S::real(ops);
+    VIA_DEFAULT.with(|c| c.set(false));
     let model = S::model(ops);
     match (&real, &model) {
         (Ok(r), Ok(m)) => {
@@ -308,7 +328,7 @@ impl Spec for HeaderSpec {
         }
     }
     fn real(ops: &[HOp]) -> Run<Header> {
-        fold_real!(HeaderBuilder::new(), ops, |b, op| match op {
+        fold_real!(start!(HeaderBuilder), ops, |b, op| match op {
             HOp::Algorithm(a) => b.algorithm(iana::Algorithm::from_i64(a).unwrap()),
             HOp::KeyId(k) => b.key_id(k),
             HOp::AddCritical(p) => b.add_critical(iana::HeaderParameter::from_i64(p).unwrap()),
@@ -427,7 +447,7 @@ macro_rules! msg_spec {
                 }
             }
             fn real(ops: &[MOp]) -> Run<$out> {
-                fold_real!(<$builder>::new(), ops, |$b, $op| $real)
+                fold_real!(start!($builder), ops, |$b, $op| $real)
             }
             fn model(ops: &[MOp]) -> Run<$out> {
                 let mut $m = <$out>::default();
@@ -950,7 +970,7 @@ impl Spec for ClaimsSpec {
         }
     }
     fn real(ops: &[COp]) -> Run<ClaimsSet> {
-        fold_real!(ClaimsSetBuilder::new(), ops, |b, op| match op {
+        fold_real!(start!(ClaimsSetBuilder), ops, |b, op| match op {
             COp::Issuer(s) => b.issuer(s),
             COp::Subject(s) => b.subject(s),
             COp::Audience(s) => b.audience(s),
@@ -1043,7 +1063,7 @@ impl Spec for PartySpec {
         }
     }
     fn real(ops: &[POp]) -> Run<PartyInfo> {
-        fold_real!(PartyInfoBuilder::new(), ops, |b, op| match op {
+        fold_real!(start!(PartyInfoBuilder), ops, |b, op| match op {
             POp::Identity(v) => b.identity(v),
             POp::NonceBytes(v) => b.nonce(Nonce::Bytes(v)),
             POp::NonceInt(i) => b.nonce(Nonce::Integer(i)),
@@ -1086,7 +1106,7 @@ impl Spec for SuppSpec {
         }
     }
     fn real(ops: &[SOp]) -> Run<SuppPubInfo> {
-        fold_real!(SuppPubInfoBuilder::new(), ops, |b, op| match op {
+        fold_real!(start!(SuppPubInfoBuilder), ops, |b, op| match op {
             SOp::KeyDataLength(n) => b.key_data_length(n),
             SOp::Protected(h) => b.protected(h),
             SOp::Other(v) => b.other(v),
@@ -1161,7 +1181,7 @@ impl Spec for KdfSpec {
         }
     }
     fn real(ops: &[DOp]) -> Run<Vec<u8>> {
-        let built: Run<CoseKdfContext> = fold_real!(CoseKdfContextBuilder::new(), ops, |b, op| match op {
+        let built: Run<CoseKdfContext> = fold_real!(start!(CoseKdfContextBuilder), ops, |b, op| match op {
             DOp::Algorithm(a) => b.algorithm(iana::Algorithm::from_i64(a).unwrap()),
             DOp::PartyU(p) => b.party_u_info(PartySpec::model(&p).unwrap()),
             DOp::PartyV(p) => b.party_v_info(PartySpec::model(&p).unwrap()),
